@@ -6,6 +6,12 @@ ROOT = os.path.dirname(os.path.dirname(os.path.abspath(__file__)))
 
 # id -> (category, technique, level text, level note, design ref)
 CHECKS = {
+ "C19": ("exploration",
+   "bounded-exhaustive enumeration of first packets x cut sets of the first bytes x server kind, enumerated handshake outcomes, and proptest-generated limit tuples probed by behaviour",
+   "(a) every first packet (CONNECT name/level/reserved-flag variations, every other v3/v5 packet) against v3-only, v5-only and combined servers, unfragmented, byte-at-a-time and under sampled cut sets, with a pipelined PUBLISH; all cut sets of the first 12 (thorough 15) bytes of the plain CONNECTs on the combined server. "
+   "(b) accept / every refusal code / handshake error, fast or held while the pipelined PUBLISH arrives. (c) configured x requested x overridden limit tuples, four roles, each limit probed after the handshake: CONNACK announcements, send window (credit and frames on the wire), inbound size, QoS, alias, Receive Maximum, outbound size.",
+   "Trusted: reference codec. Keep-alive duration is measured by C20; a client keep-alive of 0 gets the library's documented idle timeout unannounced (not judged).",
+   "DESIGN.md section 3 C19"),
  "C15": ("exploration",
    "bounded-exhaustive enumeration of ordered initiator pairs (thorough: triples) x separators x control-service answers x Stop held/handled, plus proptest mixes; oracle over the reference-decoded output stream",
    "Every single close initiator and every ordered pair with repetition (application close variants, protocol handler disconnect_with, six dedicated-code violations, malformed bytes, unsolicited ack, handler errors, peer DISCONNECT with/without session expiry) x three separators x three Stop answers x Stop held open or not, "
